@@ -41,6 +41,9 @@ func asyncFrom(r *rand.Rand, c scase) (scase, bool) {
 		post = []string{"x", "r", "r", "r", "t"}
 	}
 	c.Cli = joinOps(append(pre, post...))
+	if c.Out == "~" {
+		c.Out = "-" // a cancelling script is always named over the wire (see scripted.anon)
+	}
 	c.Async = true
 	c.Amp = 0
 	return c, true
